@@ -1,59 +1,68 @@
 import Hannibal.Monitor.Handles
 /-
   C15 — every strong handle kind keeps the actor fully functional.
+
+  `monC15`   : while any strong handle (of whatever kind) exists, stop / restart from the
+               actor's own context succeed, every weak handle upgrades, `weak_address` works,
+               and `interval` timers of the running incarnation do not end.
+  `monC15iw` : the same for `interval_with` timers (their weak sender is upgraded when the
+               closure runs, so the obligation is judged at the last `fire`).
 -/
 namespace Hannibal
 
 structure C15St where
   hold : HoldSt
-  stopIssued : Bool
-  failure : Bool
   terminated : Bool
-  leaving : Bool                       -- the final `stopped` / `finished` has begun
-  restartsPending : Nat
-  timers : List (Nat × TimerKind)
-  liveAtFire : List (Nat × Bool)       -- interval_with timer ↦ was the actor held when it last fired
+  timers : List (Nat × TimerKind)      -- timers of the running incarnation, registered outside `stopped`
   deriving Repr, DecidableEq
 
+/-- what must not happen while a strong handle exists -/
+def bad15 (st : C15St) : Label → Bool
+  | .ctxStop false => true
+  | .ctxRestart false => true
+  | .upgrade _ none => true
+  | .ctxWeak .weakAddr none => true
+  | .timerEnd t => !st.terminated && lookup t st.timers == some .interval
+  | _ => false
+
+def next15 (st : C15St) (l : Label) : C15St :=
+  let st := { st with hold := st.hold.step l }
+  match l with
+  | .ctxTimer t k _ => { st with timers := (t, k) :: st.timers }
+  | .timerEnd t => { st with timers := st.timers.filter (fun p => p.1 != t) }
+  -- a `stopped` callback (of a restart or the final one) legitimately ends the timers registered so far
+  | .cbBegin .stopped | .cbEnd .stopped _ => { st with timers := [] }
+  | l => if l.terminates then { st with terminated := true } else st
+
 def monC15 (c : MonCtx) : Mon C15St where
-  init := { hold := HoldSt.init c.h0 c.k0, stopIssued := false, failure := false, terminated := false,
-            leaving := false, restartsPending := 0, timers := [], liveAtFire := [] }
+  init := { hold := HoldSt.init c.h0 c.k0, terminated := false, timers := [] }
+  step st l := if st.hold.strongHeld && bad15 st l then none else some (next15 st l)
+
+structure C15iwSt where
+  hold : HoldSt
+  quiet : Bool                         -- a stop was issued / the actor failed, terminated or is in `stopped`
+  timers : List (Nat × TimerKind)
+  heldAtFire : List (Nat × Bool)
+  deriving Repr, DecidableEq
+
+def monC15iw (c : MonCtx) : Mon C15iwSt where
+  init := { hold := HoldSt.init c.h0 c.k0, quiet := false, timers := [], heldAtFire := [] }
   step st l :=
-    -- the actor is held by some strong handle (of whatever kind) and nothing has asked it to go
-    let live := st.hold.strongHeld && !st.stopIssued && !st.failure && !st.terminated && !st.leaving
-    let bad := live && (match l with
-      | .ctxStop false => true
-      | .ctxRestart false => true
-      | .upgrade _ none => true
-      | .ctxWeak .weakAddr none => true
-      | .timerEnd t =>
-        (match lookup t st.timers with
-         | some .interval => true
-         | _ => false)
+    let bad := !st.quiet && (match l with
+      | .timerEnd t => lookup t st.timers == some .intervalWith && lookup t st.heldAtFire == some true
       | _ => false)
-    -- an `interval_with` timer whose closure ran while the actor was held must not end before the actor does
-    let bad2 := !st.failure && !st.terminated && !st.leaving && !st.stopIssued && (match l with
-      | .timerEnd t => lookup t st.timers == some .intervalWith && lookup t st.liveAtFire == some true
-      | _ => false)
+    if bad then none else
     let st := (match l with
-      | .fire t _ => { st with liveAtFire := (t, live) :: st.liveAtFire }
+      | .fire t _ => { st with heldAtFire := (t, st.hold.strongHeld) :: st.heldAtFire }
       | _ => st)
-    if bad || bad2 then none else
     let st := { st with hold := st.hold.step l }
     match l with
-    | .stopReq _ _ | .ctxStop _ => some { st with stopIssued := true }
-    | .restartReq _ true | .ctxRestart true => some { st with restartsPending := st.restartsPending + 1 }
-    | .begin _ _ .halt | .begin _ _ .tryHalt | .begin _ _ .consume => some { st with stopIssued := true }
     | .ctxTimer t k _ => some { st with timers := (t, k) :: st.timers }
-    | .cbBegin .stopped =>
-      -- a processed restart legitimately ends the timers of the incarnation that stops
-      if st.restartsPending > 0 then some { st with restartsPending := st.restartsPending - 1, timers := [] }
-      else some { st with leaving := true }
-    | .cbBegin .finished => some { st with leaving := true }
-    | .streamEnd => some { st with stopIssued := true }
+    | .cbBegin .stopped | .cbEnd .stopped _ => some { st with timers := [] }
+    | .stopReq _ _ | .ctxStop _ | .streamEnd | .cbBegin .finished
+    | .begin _ _ .halt | .begin _ _ .tryHalt | .begin _ _ .consume => some { st with quiet := true }
     | l =>
-      let st := if l.isFailure || (match l with | .cbAbandon _ => c.cfg.failOnTimeout | _ => false)
-                then { st with failure := true } else st
-      if l.terminates then some { st with terminated := true } else some st
+      if l.isFailure || l.terminates || (match l with | .cbAbandon _ => c.cfg.failOnTimeout | _ => false)
+      then some { st with quiet := true } else some st
 
 end Hannibal
